@@ -302,7 +302,10 @@ rb_step:     \* [begin] / [body] / [ret] / [resumed]
     if (AwItem(bown) < 0) { goto z_pollaw; };
   } else if (bi < Len(rsq)) {
     bcur := rsq[bi + 1];
-    h := ObsCall(IF bi > 0 THEN ObsRet(h, self, rsq[bi], rv[self]) ELSE h, self, rsq[bi + 1]);
+    h := LET hc == ObsCall(IF bi > 0 THEN ObsRet(h, self, rsq[bi], rv[self]) ELSE h, self, rsq[bi + 1])
+         IN  IF K(rsq[bi + 1]) = "try_sync"
+             THEN ObsTryRest(hc, rsq[bi + 1], qstate[O(rsq[bi + 1])] = "Idle" /\ jobs[O(rsq[bi + 1])] = << >> /\ wakeBlocked[O(rsq[bi + 1])] = << >>)
+             ELSE hc;
     bi := bi + 1;
     goto z_dispatch;
   } else {
@@ -1978,7 +1981,10 @@ rb_step(self) == /\ pc[self] = "rb_step"
                             /\ UNCHANGED << h, bi, bcur >>
                        ELSE /\ IF bi[self] < Len(rsq[self])
                                   THEN /\ bcur' = [bcur EXCEPT ![self] = rsq[self][bi[self] + 1]]
-                                       /\ h' = ObsCall(IF bi[self] > 0 THEN ObsRet(h, self, rsq[self][bi[self]], rv[self]) ELSE h, self, rsq[self][bi[self] + 1])
+                                       /\ h' = (LET hc == ObsCall(IF bi[self] > 0 THEN ObsRet(h, self, rsq[self][bi[self]], rv[self]) ELSE h, self, rsq[self][bi[self] + 1])
+                                                IN  IF K(rsq[self][bi[self] + 1]) = "try_sync"
+                                                    THEN ObsTryRest(hc, rsq[self][bi[self] + 1], qstate[O(rsq[self][bi[self] + 1])] = "Idle" /\ jobs[O(rsq[self][bi[self] + 1])] = << >> /\ wakeBlocked[O(rsq[self][bi[self] + 1])] = << >>)
+                                                    ELSE hc)
                                        /\ bi' = [bi EXCEPT ![self] = bi[self] + 1]
                                        /\ pc' = [pc EXCEPT ![self] = "z_dispatch"]
                                   ELSE /\ IF bi[self] > 0
@@ -4406,7 +4412,7 @@ ro_park(self) == /\ pc[self] = "ro_park"
                                                                     \o stack[self]]
                             /\ pc' = [pc EXCEPT ![self] = "z_rj"]
                        ELSE /\ Assert(qstate[oq[self]] = "Running", 
-                                      "Failure of assertion at line 630, column 5.")
+                                      "Failure of assertion at line 633, column 5.")
                             /\ qstate' = [qstate EXCEPT ![oq[self]] = "WaitingForUnpark"]
                             /\ pc' = [pc EXCEPT ![self] = "ro_check"]
                             /\ UNCHANGED << stack, jq, jj, jwk >>
@@ -4443,7 +4449,7 @@ ro_check(self) == /\ pc[self] = "ro_check"
                                                                      \o stack[self]]
                              /\ pc' = [pc EXCEPT ![self] = "z_rj"]
                         ELSE /\ Assert(qstate[oq[self]] = "WaitingForUnpark", 
-                                       "Failure of assertion at line 637, column 12.")
+                                       "Failure of assertion at line 640, column 12.")
                              /\ pc' = [pc EXCEPT ![self] = "ro_parked"]
                              /\ UNCHANGED << stack, jq, jj, jwk >>
                   /\ UNCHANGED << qstate, qpoll, jobs, wakeBlocked, schedule, 
